@@ -355,8 +355,15 @@ private:
 			}
 
 			if (! tempList.empty()) {
-				std::lock_guard<Mutex> queueListLock(queueListMutex);
-				queueList.splice(queueList.begin(), tempList);
+				{
+					std::lock_guard<Mutex> queueListLock(queueListMutex);
+					queueList.splice(queueList.begin(), tempList);
+				}
+				// While the events were out of queueList, an enqueue() may have seen the queue as empty
+				// and skipped its notification: notify on its behalf.
+				if(doCanNotifyQueueAvailable()) {
+					queueListConditionVariable.notify_one();
+				}
 			}
 
 			if(! idleList.empty()) {
